@@ -555,6 +555,28 @@ def checkStep (e : Env) (pre : Sys) (op : Op) (res : Res) (post : Sys) (origin :
        let got := post.st.bal a - pre.st.bal a
        if got ≤ charged then none else some ("C04", s!"clause=refundWithinCharge cls=none rec=acct{a}:refund={got},charged={charged}"))
    else []) ++
+  -- C04 / C05: an accepted Store moves into the order escrow exactly the amount the order it creates records (refunds and
+  -- settlements are computed from the record: a record below the charge means the payer is never made whole), and an
+  -- accepted Renew moves into the market escrow exactly what the renewal orders record
+  (match op with
+   | .store _ =>
+     if res = .ok then
+       let newOrders := post.st.orders.filter (fun o => (pre.st.getOrder o.id).isNone)
+       let recorded := sumInt (newOrders.map (·.amount))
+       let moved := post.st.bal e.modOrder - pre.st.bal e.modOrder
+       if moved = recorded then [] else
+         [("C04", s!"clause=chargedAsRecorded cls=none rec=store:moved={moved},recorded={recorded}"),
+          ("C05", s!"clause=chargedAsRecorded cls=none rec=store:moved={moved},recorded={recorded}")]
+     else []
+   | .renew .. =>
+     if res = .ok then
+       let newOrders := post.st.orders.filter (fun o => (pre.st.getOrder o.id).isNone)
+       let recorded := sumInt (newOrders.map (·.amount))
+       let moved := post.st.bal e.modMarket - pre.st.bal e.modMarket
+       if moved = recorded then [] else
+         [("C04", s!"clause=chargedAsRecorded cls=none rec=renew:moved={moved},recorded={recorded}")]
+     else []
+   | _ => []) ++
   -- C15: providers newly given a shard of an order are distinct from one another and from every
   -- provider that already holds or timed out on a shard of it, were eligible when chosen, and are
   -- not more than requested
